@@ -287,6 +287,14 @@ def build_server():
 # --------------------------------------------------------------------------
 # Line-protocol processes
 # --------------------------------------------------------------------------
+class DriverHang(Exception):
+    """A driver did not answer one request within ASK_TIMEOUT: for an implementation driver this is the code under
+    test not terminating (reported as a violation with the request history as replay), for a Lean driver an internal error."""
+    def __init__(self, name, line, recent):
+        Exception.__init__(self, "%s did not answer within %d s: %s" % (name, LineProc.ASK_TIMEOUT, line[:300]))
+        self.name, self.line, self.recent = name, line, recent
+
+
 class LineProc:
     """A driver process answering one line per request line.  A death is an
     observable outcome (`None`), after which the process is restarted."""
@@ -302,6 +310,7 @@ class LineProc:
         self._deadline = None
         self._hung = False
         self._closed = False
+        self.recent = []
         self.start()
         import threading
         threading.Thread(target=self._watchdog, daemon=True).start()
@@ -327,6 +336,9 @@ class LineProc:
 
     def ask(self, line):
         self._hung = False
+        self.recent.append(line if len(line) < 4000 else line[:4000] + "…")
+        if len(self.recent) > 200:
+            del self.recent[:100]
         self._deadline = time.time() + self.ASK_TIMEOUT
         try:
             self.p.stdin.write(line + "\n")
@@ -343,6 +355,10 @@ class LineProc:
             if self._hung:
                 self.hangs += 1
                 self.stderr_tail = "HANG: no answer within %d s, driver killed (request: %s)\n" % (self.ASK_TIMEOUT, line[:300]) + self.stderr_tail
+                recent = list(self.recent)
+                self._close_err()
+                self.start()
+                raise DriverHang(self.name, line, recent)
             self._close_err()
             self.start()
             return None
